@@ -37,7 +37,7 @@ ASSUMPTIONS = [
     "str(int) of the ClOrdID counter is plain decimal (CPython's 4300-digit limit is out of reach)",
 ]
 MODELLED_NOT_VERIFIED = [
-    "C17: FIXNewOrderSingle methods, RE_CLORD_ROOT (backtracking model of ^(.+)--(\\d+)$ with re.MULTILINE, \\d = the "
+    "C17: FIXNewOrderSingle methods, RE_CLORD_ROOT (backtracking model of (.+)--(\\d+)\\Z with re.DOTALL, \\d = the "
     "code points CPython's re matches, regenerated each run), str(float) on the grid are hand-modelled and compared by "
     "the correspondence; FIXMessage get/set, float(), Enum lookup by value are assumed as modelled",
 ]
@@ -478,11 +478,11 @@ def bfs(ctx, drv, dis, depth, budget_s):
 # oracle: the property's sentences on the implementation against the Python reference exchange
 # ---------------------------------------------------------------------------------------------
 def ends_in_chain_suffix(root: str) -> bool:
-    """the exclusion of the property text, read on the LAST line: …--<digits> with something before it"""
+    """the exclusion of the property text: …--<digits> with something (anything, line breaks too) before it"""
     i = len(root)
     while i > 0 and root[i - 1].isdecimal():
         i -= 1
-    return i < len(root) and i >= 2 and root[i - 2:i] == "--" and i - 2 > 0 and root[i - 3] != "\n"
+    return i < len(root) and i >= 2 and root[i - 2:i] == "--" and i - 2 > 0
 
 
 class Monitor:
